@@ -54,12 +54,22 @@ for pid, patch in jobs:
     json.dump(res, open(respath, 'w'), indent=1)
     print(key, res[key]['exit'], len(viol), flush=True)
 # table
-rows = ['| check | change | result | first observation |', '|---|---|---|---|']
+rows = ['| check | change | written for | result | first observation |', '|---|---|---|---|---|']
 for key in sorted(res):
     pid, patch = key.split(' ', 1)
+    if not os.path.exists(patch):
+        continue
     v = res[key]
+    own = pid
+    if patch.startswith('seeded/'):
+        try:
+            own = json.load(open(os.path.dirname(patch) + '/meta.json')).get('property', pid)
+        except Exception:
+            pass
     verdict = 'caught (exit 1)' if v['exit'] == 1 and v['violations'] > 0 else ('HARNESS-ERROR / build error (exit 2)' if v['exit'] == 2 else 'NOT caught (exit 0)')
-    rows.append(f"| {pid} | `{patch}` | {verdict} | {v['first'].replace('|', '/')[:220]} |")
+    if own != pid and verdict.startswith('NOT'):
+        verdict = 'not caught (cross-run for information: the change breaks ' + own + ', not ' + pid + ')'
+    rows.append(f"| {pid} | `{patch}` | {own} | {verdict} | {v['first'].replace('|', '/')[:220]} |")
 s = open('DESIGN.md').read()
 s = re.sub(r'<!--matrix-->.*?<!--/matrix-->', '<!--matrix-->\n' + '\n'.join(rows) + '\n<!--/matrix-->', s, flags=re.S)
 open('DESIGN.md', 'w').write(s)
